@@ -239,7 +239,11 @@ func (g *gen) opExpr(d int) string {
 }
 
 func (g *gen) lambda(d int) string {
-	switch g.r.Intn(8) {
+	switch g.r.Intn(10) {
+	case 8: // a body in parentheses (a block of one expression), once and twice
+		return g.pick("function($x){($x * 2)}", "function($x){(($x))}", "function($x)<n:n>{($x + 1)}", "function($x, $i){($x; $i)}")
+	case 9:
+		return "function($x){(" + g.expr(d-1) + ")}"
 	case 0:
 		return "function($x){$x * 2}"
 	case 1:
